@@ -9,6 +9,7 @@ TYPES = ["int", "uint", "short", "ushort", "byte", "ubyte", "float", "double", "
 def gen_schema(rng):
     """a schema from the autoSql grammar, as a token list (tokens are joined without extra separators)"""
     toks = []
+    gen_schema.last_counts = []
     ndecl = rng.range(1, 2)
     for _ in range(ndecl):
         toks += [rng.choice(["table", "simple", "object"]), " ", rng.choice(["t", "bed", "geneX", "a1"])]
@@ -24,7 +25,9 @@ def gen_schema(rng):
         if rng.chance(1, 6):
             toks += [" ", "auto"]
         toks += ["\n", '"' + rng.choice(["A comment", "c", "Browser (extensible) data; x", ""]) + '"', "\n", "(", "\n"]
-        for _f in range(rng.range(1, 5)):
+        nfields = rng.range(1, 5)
+        gen_schema.last_counts.append(nfields)
+        for _f in range(nfields):
             toks += ["    "]
             r = rng.below(10)
             if r < 6:
@@ -88,6 +91,26 @@ class C19(Prop):
             for t in sorted(texts):
                 out.append(CaseT(f"sc{k}", "autosql", [], ["TEXT " + (t.encode().hex() or "-")], tags={"schema"}))
                 k += 1
+        # schemas supplied to the library: stored verbatim, header field count = fields of the LAST parsed declaration
+        # (helper `simple` / `object` declarations before the table, unparsable text ⇒ 3, the default ⇒ BED3)
+        nlib = 400 if tier == "thorough" else 60
+        for li in range(nlib):
+            toks = gen_schema(rng)
+            text = "".join(toks)
+            expect = gen_schema.last_counts[-1]               # fields of the last declaration: the table's
+            if li % 7 == 0:
+                text = text[: len(text) // 2]                 # truncated: does not parse
+                expect = None
+            if li % 5 == 0:
+                text = 'simple helper\n"a helper type"\n(\n    int a;\t"a"\n    int b;\t"b"\n)\n' + text
+            ncol = 0
+            lines = ["OPT compress=0 ips=1024 bs=256 zooms=none pass=" + str(1 + li % 2) + " src=iter",
+                     "CHROM chr1 1000", "E chr1 5 9 " + ("6162" if li % 2 else "-"), "E chr1 7 20 -"]
+            if li % 9 != 8:
+                lines.append("AUTOSQL " + text.encode().hex())
+            c = CaseT(f"lib{li}", "bed", [], lines, tags={"library_schema"})
+            c.expect_fields = expect if li % 9 != 8 else 3    # no schema supplied: the three-field default
+            out.append(c)
         maxlen = 5 if tier == "thorough" else 4
         for L in range(0, maxlen + 1):
             for tup in itertools.product(ALPHA, repeat=L):
@@ -106,7 +129,18 @@ class C19(Prop):
                     k += 1
         return out
 
+    def view(self, lines):
+        # for the library cases: the stored text and the header's field counts
+        if any(l.startswith("HDR") for l in lines):
+            return [l for l in lines if l.split(" ")[0] in ("R", "OPEN", "HDR", "AUTOSQL", "ITEMCOUNT")]
+        return lines
+
+    def model_extra(self, case, il):
+        return ["LEVELS"] if case.kind == "bed" else []
+
     def nontrivial(self, case, il):
+        if "library_schema" in case.tags:
+            return True
         if "gen" in case.tags:
             return True
         if any(l.startswith("FIELD ") for l in il):
@@ -129,6 +163,18 @@ class C19(Prop):
             return "the parser brought the process down (unbounded growth or abort)"
         if any(l.startswith("R panic") for l in il):
             return "the parser panicked"
+        if "library_schema" in case.tags:
+            if (il[0] if il else "") != "R ok":
+                return None if il and il[0].startswith("R err") else "the bigBed writer did not return normally with a supplied schema"
+            a = case.records("AUTOSQL")
+            got = next((l for l in il if l.startswith("AUTOSQL")), None)
+            if a and got != "AUTOSQL " + a[0][1]:
+                return "the supplied autoSql text is not returned verbatim"
+            ef = getattr(case, "expect_fields", None)
+            hdr = next((l for l in il if l.startswith("HDR")), "")
+            if ef is not None and f"fields={ef} defined={ef}" not in hdr:
+                return f"the header's field count is `{hdr}`, the schema's last declaration declares {ef} fields"
+            return None
         if "gen" in case.tags:
             rest = unhex(case.records("GEN")[0][1])
             n = 0 if not rest else rest.count(b"\t") + 1
